@@ -16,7 +16,7 @@ CHECKS = {
         ref="DESIGN.md section 0.7 and 5 C01", note="Remaining premises of the whole-run theorem (run_setup): collision-freeness of the content at every piece, one file per export path, no two export paths initially hard-linked; the wf_piece side conditions are now PROVED from the layout theorems for every piece of the work list (C01_every_work_piece_good)."),
     "C02": dict(
         technique="Coq proof (candidate index complete and sound for every hash-map order; de-duplication keeps representatives; exhaustive combination search; available => Success with the segments written) + trace validation + independent availability oracle",
-        text="C02_stably_available_means_recovered / C02_stable_availability_is_invariant (RerunProofs.v): when each witness is a file the table owns no path of, or an export image already verifying for its own entry, availability at the START is kept in every reachable state (a theorem, not a hypothesis) and the piece is recovered. C02_available_means_recovered (CompleteProofs.v + EstablishProofs.v): in a fault-free run of the whole system, under every interleaving, all of whose states keep the piece available and unobstructed, the piece's evaluation can only return Success and every non-padding segment is then in place in the export tree. C02_candidates_complete/sound, C02_witnesses_give_combination, C02_search_exhaustive, C02_available_piece_recovered: at the program level, a piece whose every segment has a readable candidate holding the torrent's bytes succeeds and writes every segment not sourced from its own export file. Tied to the code by replaying 300 (3000) generated runs against the model and by an availability oracle computed from the initial snapshot.",
+        text="C02_present_means_recovered (AvailProofs.v): C02 as stated - index = exactly the registered set of the start state, each segment present in a regular file of the declared length under a scan directory or at an export location that the run cannot damage, nothing in the way => Success and in place, for every hash-map order and interleaving. C02_stably_available_means_recovered / C02_stable_availability_is_invariant (RerunProofs.v): when each witness is a file the table owns no path of, or an export image already verifying for its own entry, availability at the START is kept in every reachable state (a theorem, not a hypothesis) and the piece is recovered. C02_available_means_recovered (CompleteProofs.v + EstablishProofs.v): in a fault-free run of the whole system, under every interleaving, all of whose states keep the piece available and unobstructed, the piece's evaluation can only return Success and every non-padding segment is then in place in the export tree. C02_candidates_complete/sound, C02_witnesses_give_combination, C02_search_exhaustive, C02_available_piece_recovered: at the program level, a piece whose every segment has a readable candidate holding the torrent's bytes succeeds and writes every segment not sourced from its own export file. Tied to the code by replaying 300 (3000) generated runs against the model and by an availability oracle computed from the initial snapshot.",
         ref="DESIGN.md section 5 C02", note="Statement-level hypotheses: fault-free run, the witnesses stay in place and nothing obstructs the export paths in every state of the run (avail), collision-freeness, the torrent's hash is the hash of the content; the file-system effect of the emitted operations is the FS model's (validated against real runs)."),
     "C03": dict(
         technique="Coq proof (every mutating op targets an entry's export path or its parent; table paths confined to export/<hex>/Data; open modes from Generated.v) + whole-sandbox snapshot oracle + trace validation",
